@@ -14,6 +14,7 @@
 extern const PropDef PROPS_PIPELINE[];
 extern const PropDef PROPS_STORAGE[];
 extern const PropDef PROPS_HISTORY[];
+int litmus_main(FILE *rep);
 
 const PropDef *find_prop(const std::string &id) {
   for (const PropDef *tab : {PROPS_PIPELINE, PROPS_STORAGE, PROPS_HISTORY})
@@ -408,6 +409,7 @@ int main(int argc, char **argv) {
     fprintf(rep, "reference self-test ok (FIPS-197, SP 800-38A, RFC 2202, FIPS 180)\n");
     return 0;
   }
+  if (cmd == "litmus") return litmus_main(rep);
   if (cmd == "plan" && argc >= 4) {
     const PropDef *p = find_prop(argv[2]);
     if (!p) return 2;
